@@ -341,6 +341,116 @@ def unsnap(it: ast.AST) -> tuple:
             return it, snap
 
 
+def _scope_bindings(root: ast.AST, pkg: Optional[str] = None) -> tuple[dict, set]:
+    """(names bound by import -> dotted name, names bound in any other way) in the scope whose node is root (a module or a function): nested
+    functions, lambdas and classes are scopes of their own (a comprehension target is counted here, which errs to the side of refusing)"""
+    imported: dict[str, str] = {}
+    other: set = set()
+    if isinstance(root, (ast.FunctionDef, ast.AsyncFunctionDef, ast.Lambda)):
+        a_ = root.args
+        other.update(x.arg for x in a_.posonlyargs + a_.args + a_.kwonlyargs + ([a_.vararg] if a_.vararg else []) + ([a_.kwarg] if a_.kwarg else []))
+    for n in own_nodes(root):
+        if isinstance(n, ast.Import):
+            for a in n.names:
+                if a.asname:
+                    imported[a.asname] = a.name
+                else:
+                    imported[a.name.split(".")[0]] = a.name.split(".")[0]
+        elif isinstance(n, ast.ImportFrom):
+            base = n.module
+            if n.level:
+                # relative to the package the module stands in (pkg)
+                up = pkg.split(".") if pkg else []
+                up = up[:len(up) - (n.level - 1)] if pkg and n.level - 1 < len(up) else []
+                base = ".".join(up + ([n.module] if n.module else [])) if up else None
+            for a in n.names:
+                if base:
+                    imported[a.asname or a.name] = base + "." + a.name
+                else:
+                    other.add(a.asname or a.name)
+        elif isinstance(n, (ast.FunctionDef, ast.AsyncFunctionDef, ast.ClassDef)):
+            other.add(n.name)
+        elif isinstance(n, ast.Name) and isinstance(n.ctx, (ast.Store, ast.Del)):
+            other.add(n.id)
+        elif isinstance(n, ast.ExceptHandler) and n.name:
+            other.add(n.name)
+        elif isinstance(n, (ast.Global, ast.Nonlocal)):
+            other.update(n.names)
+    for k in other:
+        imported.pop(k, None)
+    return imported, other
+
+
+class Denotes:
+    """What an expression used as a callable denotes, as a dotted name, whatever the module calls it: `chain`, `itertools.chain`, `it.chain` (after
+    `import itertools as it`) and `c` (after `from itertools import chain as c`) all denote 'itertools.chain'; a builtin that nothing shadows
+    denotes 'builtins.<name>'.  The name is looked up in the function the expression stands in (fn), then in the module.  None when the expression
+    is not a (dotted) name, or the name is bound in one of these scopes in any other way (a def, an assignment, a parameter): nothing is
+    claimed about it then."""
+
+    def __init__(self, mod: Module, fn: Optional[ast.AST] = None):
+        import builtins
+
+        self.pkg = mod.name if mod.path.name == "__init__.py" else mod.name.rpartition(".")[0]
+        self.scopes = ([_scope_bindings(fn, self.pkg)] if fn is not None else []) + [_scope_bindings(mod.tree, self.pkg)]
+        self.builtins = set(dir(builtins))
+
+    def within(self, mod: Module, fn: ast.AST) -> "Denotes":
+        d = Denotes.__new__(Denotes)
+        d.pkg, d.scopes, d.builtins = self.pkg, [_scope_bindings(fn, self.pkg)] + self.scopes[-1:], self.builtins
+        return d
+
+    def __call__(self, e: ast.AST) -> Optional[str]:
+        parts = []
+        while isinstance(e, ast.Attribute):
+            parts.append(e.attr)
+            e = e.value
+        if not isinstance(e, ast.Name):
+            return None
+        for imported, other in self.scopes:
+            if e.id in other:
+                return None
+            if e.id in imported:
+                return ".".join([imported[e.id]] + parts[::-1])
+        if e.id in self.builtins and not parts:
+            return "builtins." + e.id
+        return None
+
+
+def package_function(repo: Repo, mod: Module, fn: Optional[ast.AST], call: ast.AST) -> Optional[tuple[Module, ast.FunctionDef]]:
+    """the module-level function of the package that `call` (standing in function fn of module mod) calls: a function of the module itself, or one
+    of another module of the package under the name it was imported by (`from pkg.m import g [as h]`, `import pkg.m as x; x.g(...)`, relative
+    forms).  None when the callee is anything else or the name is rebound in a scope on the way."""
+    if not isinstance(call, ast.Call):
+        return None
+    d0 = mod.__dict__.get("_h_c01_denotes")
+    if d0 is None:
+        d0 = mod.__dict__["_h_c01_denotes"] = Denotes(mod)
+    d = d0.within(mod, fn) if fn is not None else d0
+
+    def top_level(m: Module, name: str) -> Optional[ast.FunctionDef]:
+        hits = [st for st in m.tree.body if isinstance(st, (ast.FunctionDef, ast.AsyncFunctionDef)) and st.name == name]
+        imported, other = _scope_bindings(m.tree)
+        n_other = sum(1 for x in ast.walk(m.tree) if isinstance(x, ast.Name) and isinstance(x.ctx, ast.Store) and x.id == name and m.scope.get(id(x), "") == "")
+        return hits[0] if len(hits) == 1 and not hits[0].decorator_list and not n_other and name not in imported else None
+
+    f = call.func
+    if isinstance(f, ast.Name) and (fn is None or f.id not in d.scopes[0][1]):
+        g = top_level(mod, f.id)
+        if g is not None:
+            return mod, g
+    dotted = d(f)
+    if dotted is None or "." not in dotted:
+        return None
+    mn, _, name = dotted.rpartition(".")
+    if mn in repo.modules:
+        m2 = repo.mod(mn)
+        g = top_level(m2, name)
+        if g is not None:
+            return m2, g
+    return None
+
+
 def _is_static(fn: ast.FunctionDef) -> bool:
     return any(norm(d) in ("staticmethod", "builtins.staticmethod") for d in fn.decorator_list)
 
@@ -494,11 +604,22 @@ class StoreFlow:
             return self._merge(a, b)
         if isinstance(s, (ast.For, ast.AsyncFor)):
             inner, _ = unsnap(s.iter)
-            self.ev(inner, env)
+            itv = self.ev(inner, env)
             elem: set = set()
             if isinstance(inner, ast.Call) and isinstance(inner.func, ast.Attribute) and inner.func.attr == "triples" and self._is_self(inner.func.value):
                 elem = {_ENUM}
                 self._event("enumerate", ("view", "", (), ()), s)
+            rows = [v for v in itv if v[0] == "tuple"]
+            if len(rows) == 1 and len(itv) == 1:
+                # a loop over a table whose rows are known (a tuple / list display, also a module-level one): one pass per row, the target bound
+                # to that row - what goes together in a row stays together
+                for row in rows[0][1]:
+                    e2 = {k: set(v) for k, v in env.items()}
+                    self._bind(s.target, set(row), e2, None, s)
+                    e2 = self._block(s.body, e2)
+                    env = self._merge(env, e2)
+                self._cur[-1][2] = s
+                return self._block(s.orelse, env)
             for _ in (0, 1):
                 e2 = {k: set(v) for k, v in env.items()}
                 self._bind(s.target, elem, e2, None, s)
@@ -555,6 +676,9 @@ class StoreFlow:
             elif _ENUM in vals and n == 2:
                 self._bind(t.elts[0], {TRIPLE}, env, None, stmt)
                 self._bind(t.elts[1], set(), env, None, stmt)
+            elif any(v[0] == "tuple" and len(v[1]) == n for v in vals) and not any(isinstance(x, ast.Starred) for x in t.elts):
+                for i, te in enumerate(t.elts):
+                    self._bind(te, set().union(*[v[1][i] for v in vals if v[0] == "tuple" and len(v[1]) == n]), env, None, stmt)
             else:
                 for te in t.elts:
                     self._bind(te.value if isinstance(te, ast.Starred) else te, set(), env, None, stmt)
@@ -567,7 +691,8 @@ class StoreFlow:
                             for kk in self._keys_of(k, env):
                                 self._event("write", v, stmt, extra_key=kk, extra_text=norm(k))
         elif isinstance(t, ast.Attribute) and self._is_self(t.value):
-            self._event("rebind", ("view", t.attr, (), ()), stmt)
+            # `arg`: what the attribute is bound to (the levels of store state the new value is, if any)
+            self._event("rebind", ("view", t.attr, (), ()), stmt, arg=frozenset(v for v in vals if v and v[0] == "view"))
 
     # -- expressions
     def _keys_of(self, k: ast.AST, env: dict) -> set:
@@ -591,9 +716,54 @@ class StoreFlow:
                     out.add(("view", b[1], b[2] + (k,), b[3] + (norm(key),)))
         return out
 
+    def _module_value(self, name: str) -> set:
+        """the value of a module-level name that is bound once, at module level, to a display of constants (a table of key positions, say)"""
+        memo = self.__dict__.setdefault("_modvals", {})
+        if name in memo:
+            return memo[name]
+        memo[name] = set()
+        binds = []
+        for st in ast.walk(self.mod.tree):
+            if isinstance(st, (ast.Assign, ast.AnnAssign, ast.AugAssign, ast.For, ast.NamedExpr, ast.withitem, ast.comprehension)):
+                tg = st.targets if isinstance(st, ast.Assign) else [getattr(st, "target", None) or getattr(st, "optional_vars", None)]
+                if any(isinstance(x, ast.Name) and x.id == name for t in tg if t is not None for x in ast.walk(t)):
+                    binds.append(st)
+            elif isinstance(st, (ast.Global, ast.Nonlocal)) and name in st.names:
+                binds.append(st)
+            elif isinstance(st, (ast.FunctionDef, ast.AsyncFunctionDef, ast.ClassDef)) and st.name == name:
+                binds.append(st)
+            elif isinstance(st, (ast.Import, ast.ImportFrom)) and any((a.asname or a.name.split(".")[0]) == name for a in st.names):
+                binds.append(st)
+        if len(binds) == 1 and isinstance(binds[0], (ast.Assign, ast.AnnAssign)) and binds[0] in self.mod.tree.body and binds[0].value is not None:
+            v = binds[0].value
+            if all(isinstance(x, (ast.Tuple, ast.List, ast.Constant, ast.Name, ast.Load, ast.UnaryOp, ast.USub)) for x in ast.walk(v)):
+                memo[name] = self.ev(v, {})
+        return memo[name]
+
+    def _element(self, bases: set, keys: set) -> set:
+        """what indexing a triple / a known tuple with a known position gives"""
+        out: set = set()
+        for b in bases:
+            for k in keys:
+                if k[0] != "const" or not isinstance(k[1], int) or isinstance(k[1], bool):
+                    continue
+                if b == TRIPLE and -3 <= k[1] < 3:
+                    r = ROLES[k[1]]
+                    self.unpacked.add(r)
+                    out.add(("role", r))
+                elif b[0] == "tuple" and -len(b[1]) <= k[1] < len(b[1]):
+                    out |= b[1][k[1]]
+        return out
+
     def ev(self, e: ast.AST, env: dict) -> set:
         if isinstance(e, ast.Name):
+            if e.id not in env and isinstance(e.ctx, ast.Load):
+                return set(self._module_value(e.id))
             return set(env.get(e.id, ()))
+        if isinstance(e, ast.Constant):
+            return {("const", e.value)} if isinstance(e.value, int) and not isinstance(e.value, bool) else set()
+        if isinstance(e, ast.UnaryOp) and isinstance(e.op, ast.USub) and isinstance(e.operand, ast.Constant) and type(e.operand.value) is int:
+            return {("const", -e.operand.value)}
         if isinstance(e, ast.Attribute):
             if self._is_self(e.value):
                 return {("view", e.attr, (), ())}
@@ -603,7 +773,7 @@ class StoreFlow:
             out = self._subscript(e.value, e.slice, env)
             for v in out:
                 self._event("read", v, e)
-            return out
+            return out | self._element(self.ev(e.value, env), self.ev(e.slice, env))
         if isinstance(e, ast.NamedExpr):
             vals = self.ev(e.value, env)
             self._bind(e.target, vals, env, e.value, self._cur[-1][2])
@@ -620,7 +790,9 @@ class StoreFlow:
             vs = [self.ev(x, env) for x in e.elts]
             if len(vs) == 3 and all(("role", r) in v for v, r in zip(vs, ROLES)):
                 return {TRIPLE}
-            return set()
+            if any(isinstance(x, ast.Starred) for x in e.elts):
+                return set()
+            return {("tuple", tuple(frozenset(v) for v in vs))}
         if isinstance(e, ast.Call):
             return self._call(e, env)
         if isinstance(e, (ast.Lambda, ast.GeneratorExp, ast.ListComp, ast.SetComp, ast.DictComp)):
@@ -710,6 +882,25 @@ def context_key_methods(mod: Module, cls: str) -> frozenset:
     return frozenset(found)
 
 
+def context_state(mod: Module, cls: str) -> tuple[Optional[str], set]:
+    """(per-triple context map, shared default-context attributes) of a context-aware store, by what add() does - itself or through the
+    methods of the class it calls: the per-triple map is the attribute of self in which add() stores an entry under the TRIPLE as the only key
+    (and which is not one of the three indexes); a default-context attribute is an attribute of self that add() binds to such an entry (the
+    context dict of one triple, which from then on stands for every triple without an entry of its own)"""
+    fn = mod.func(cls + ".add")
+    ps = [a.arg for a in fn.args.posonlyargs + fn.args.args]
+    if len(ps) < 2:
+        raise AnalysisError("%s.add: no triple parameter" % cls)
+    fl = StoreFlow(mod, cls, context_key_methods(mod, cls))
+    fl.enter("add", {ps[1]: {TRIPLE}})
+    maps = {e.attr for e in fl.events if e.kind == "write" and e.keys == ("T",)}
+    if len(maps) != 1:
+        return None, set()
+    tc = next(iter(maps))
+    dflt = {e.attr for e in fl.events if e.kind == "rebind" and any(v[1] == tc and v[2] == ("T",) for v in e.arg)}
+    return tc, dflt
+
+
 def index_orders(mod: Module, cls: str) -> tuple[dict, list]:
     """(attribute -> declared key order, conflicts): the attributes of the store that add() - itself or through the methods of the class it
     calls - writes at the third nested level with the three components of its triple argument as keys"""
@@ -754,8 +945,9 @@ def index_orders(mod: Module, cls: str) -> tuple[dict, list]:
 
 
 class _Yield:
-    def __init__(self, node, shape, comps, problems, loops, idx):
+    def __init__(self, node, shape, comps, problems, loops, idx, via=()):
         self.node, self.shape, self.comps, self.problems, self.loops, self.index = node, shape, comps, problems, loops, idx
+        self.via = via  # the yields of the generators (functions of the package that triples() consumes) through which this yield was reached
 
 
 def _is_empty_container(e: ast.AST) -> bool:
@@ -776,8 +968,10 @@ def _as_triple(v):
 
 
 class PatternInterp:
-    def __init__(self, mod: Module, cls: str, orders: dict, ctx_aware: bool):
+    def __init__(self, mod: Module, cls: str, orders: dict, ctx_aware: bool, repo: Optional[Repo] = None):
         self.mod, self.cls, self.orders, self.ctx_aware = mod, cls, orders, ctx_aware
+        self.repo = repo
+        self.mods_seen: list = [mod]
         self.meths = mod.methods(cls)
         self.fn = mod.func(cls + ".triples")
         ps = [a.arg for a in self.fn.args.posonlyargs + self.fn.args.args]
@@ -824,10 +1018,21 @@ class PatternInterp:
                 if len(e.args) == 2 and not _is_empty_container(e.args[1]):
                     return None
                 return self._lookup(self.val(e.func.value, env), e.args[0], env, e, len(e.args) == 1)
-            return None
+            if a in ("keys", "copy", "get"):
+                return None
         if isinstance(e, ast.Call) and isinstance(e.func, ast.Name) and e.func.id in _SNAP_FUNCS and len(e.args) == 1 and not e.keywords:
             b = self.val(e.args[0], env)
             return b if b and b[0] == "ctxset" else None
+        if isinstance(e, ast.Call) and self.repo is not None:
+            # a generator function of the package (of this module, or imported) called with tracked values: the generator it returns
+            r = package_function(self.repo, env["mod"], env["fn"], e)
+            if r is not None and not any(isinstance(a, ast.Starred) for a in e.args) and all(k.arg for k in e.keywords) \
+                    and any(isinstance(x, (ast.Yield, ast.YieldFrom)) for x in own_nodes(r[1])):
+                argv = tuple(self.val(a, env) for a in e.args)
+                kw = tuple((k.arg, self.val(k.value, env)) for k in e.keywords)
+                if any(v is not None for v in argv + tuple(v for _, v in kw)):
+                    return ("gen", r[0], r[1], argv, kw)
+            return None
         if isinstance(e, ast.Tuple) and len(e.elts) == 3:
             vs = tuple(self.val(x, env) for x in e.elts)
             if all(_comp(v) for v in vs):
@@ -935,7 +1140,7 @@ class PatternInterp:
     def _filter_call(self, c: ast.Call, env):
         """a method of self handed a triple and the context key, whose body is (bindings and) one `return <test>`: the test, folded with the
         parameters bound to the caller's values"""
-        r = class_callee(self.meths, self.cls, env["fn"], c)
+        r = self._class_callee(env, c)
         if r is None or any(isinstance(a, ast.Starred) for a in c.args):
             return None
         name, callee, skip = r
@@ -964,6 +1169,53 @@ class PatternInterp:
         finally:
             self._depth.pop()
 
+    def _class_callee(self, env, call: ast.AST):
+        """the method of the store class that a call inside a method of that class goes to (a call in a function of the package that is being
+        interpreted on behalf of triples() has no receiver of the class)"""
+        if env["self"] is None or env["mod"] is not self.mod or not isinstance(call, ast.Call):
+            return None
+        return class_callee(self.meths, self.cls, env["fn"], call)
+
+    def mod_of(self, node: ast.AST) -> Module:
+        """the module a reported node stands in"""
+        for m in self.mods_seen:
+            if id(node) in m.parent:
+                return m
+        return self.mod
+
+    def _function_env(self, cmod: Module, callee: ast.FunctionDef, argv, kw, env) -> dict:
+        """the environment in which the body of a module-level function runs: its parameters bound to the caller's values"""
+        e2 = self.copy(env)
+        ps = [a.arg for a in callee.args.posonlyargs + callee.args.args]
+        new: dict = {}
+        for p_, v in zip(ps, argv):
+            if v is not None:
+                new[p_] = v
+        names = set(ps) | {a.arg for a in callee.args.kwonlyargs}
+        for k, v in kw:
+            if k in names and v is not None:
+                new[k] = v
+        e2["vars"], e2["self"], e2["fn"], e2["mod"] = new, None, callee, cmod
+        if cmod not in self.mods_seen:
+            self.mods_seen.append(cmod)
+        return e2
+
+    def _consume(self, gen, env, on_yield, where) -> None:
+        """run the body of the generator function behind `gen`; every value it yields is handed to on_yield(yield node, value, environment at
+        the yield) - the consumer's loop body, or the consumer's own yield for `yield from`"""
+        _, cmod, callee, argv, kw = gen
+        tag = "%s:%s" % (cmod.name, callee.name)
+        if tag in self._depth or len(self._depth) > 3:
+            self.unmodelled.append((where, "generator %s consumed recursively" % callee.name))
+            return
+        e2 = self._function_env(cmod, callee, argv, kw, env)
+        e2["consumer"] = on_yield
+        self._depth.append(tag)
+        try:
+            self.block(callee.body, e2)
+        finally:
+            self._depth.pop()
+
     def _callee_env(self, callee: ast.FunctionDef, argv: list, kw: dict, env) -> dict:
         e2 = self.copy(env)
         ps = _callee_params(callee)
@@ -986,12 +1238,12 @@ class PatternInterp:
         if self.cp:
             v0[self.cp] = ("context",)
         env = {"vars": v0, "bound": bound, "facts": set(), "loops": [], "ctx_ok": None, "try": 0, "self": self.sn, "fn": self.fn,
-               "shape": "".join(r if bound[r] else "-" for r in ROLES)}
+               "shape": "".join(r if bound[r] else "-" for r in ROLES), "mod": self.mod, "consumer": None, "via": ()}
         self.block(self.fn.body, env)
 
     def copy(self, env):
         return {"vars": dict(env["vars"]), "bound": env["bound"], "facts": set(env["facts"]), "loops": list(env["loops"]), "ctx_ok": env["ctx_ok"],
-                "try": env["try"], "self": env["self"], "fn": env["fn"], "shape": env["shape"]}
+                "try": env["try"], "self": env["self"], "fn": env["fn"], "shape": env["shape"], "mod": env["mod"], "consumer": env["consumer"], "via": env["via"]}
 
     def block(self, stmts, env) -> list:
         envs = [env]
@@ -1018,11 +1270,11 @@ class PatternInterp:
                 self.note_subscript(v, ("view", val[1], val[2][:-1]) if val[0] == "optview" else val, env, s)
                 env["vars"][t.id] = val
                 return [env]
-            if val and val[0] in ("triple", "ctxset", "ctxkey", "pat", "loop", "ctxtriple"):
+            if val and val[0] in ("triple", "ctxset", "ctxkey", "pat", "loop", "ctxtriple", "gen"):
                 env["vars"][t.id] = val
                 return [env]
             if isinstance(v, ast.Call) and self.cp is not None:
-                r = class_callee(self.meths, self.cls, env["fn"], v)
+                r = self._class_callee(env, v)
                 if r is not None and any(self.val(a, env) == ("context",) for a in list(v.args) + [k.value for k in v.keywords]):
                     env["vars"][t.id] = ("ctxkey",)
                     return [env]
@@ -1036,12 +1288,19 @@ class PatternInterp:
             return [env]
         if isinstance(s, ast.Return):
             return []
+        if isinstance(s, ast.Continue) and env["loops"]:
+            # the rest of this pass through the loop body is not executed on this path; the other passes are the other paths through the
+            # body, each interpreted on its own (a `break` is different: it gives up the keys not yet enumerated, and stays unmodelled)
+            return []
         if isinstance(s, ast.Assign) and len(s.targets) == 1:
             return self._assign(s.targets[0], s.value, s, env)
         if isinstance(s, ast.AnnAssign) and s.value is not None:
             return self._assign(s.target, s.value, s, env)
         if isinstance(s, ast.Expr) and isinstance(s.value, ast.Yield):
-            self.do_yield(s.value, env)
+            if env["consumer"] is not None:
+                env["consumer"](s.value, env)  # a yield of a generator that triples() consumes: the consumer goes on with the value
+            else:
+                self.do_yield(s.value, env)
             return [env]
         if isinstance(s, ast.Expr) and isinstance(s.value, ast.YieldFrom):
             return self._delegate(s, s.value.value, env)
@@ -1073,6 +1332,9 @@ class PatternInterp:
             has_yield = any(isinstance(x, (ast.Yield, ast.YieldFrom)) for st in s.body + s.orelse for x in ast.walk(st))
             if has_yield:
                 self.unmodelled.append((s, "condition `%s` guards a yield" % norm(s.test)))
+            elif any(isinstance(x, (ast.Return, ast.Continue, ast.Break, ast.Raise)) for st in s.body + s.orelse for x in ast.walk(st)):
+                # a guard clause is the same condition written the other way round: what it lets through are the yields that follow
+                self.unmodelled.append((s, "condition `%s` decides whether the yields that follow are reached" % norm(s.test)))
             return self.block(s.body, self.copy(env)) + self.block(s.orelse, self.copy(env))
         if isinstance(s, ast.For):
             inner, snap = unsnap(s.iter)
@@ -1091,6 +1353,25 @@ class PatternInterp:
                 e2["facts"].add((idx, keys + (lv,)))
                 e2["loops"].append((s, snap))
                 self.block(s.body, e2)
+                return [env]
+            if vw is not None and vw[0] == "gen" and not snap and isinstance(s.target, ast.Name) and not s.orelse:
+                # a loop over a generator of the package: the body runs once for each value the generator yields, with what was established
+                # on the way to that yield (membership facts, the snapshots its loops iterate); the loop itself iterates no store state
+                caller, target, body = env, s.target.id, s.body
+
+                def on_yield(y: ast.Yield, genv, caller=caller, target=target, body=body, loop=s):
+                    v = _as_triple(self.val(y.value, genv)) if y.value is not None else None
+                    if v is None or v[0] not in ("triple", "ctxtriple", "pat", "loop"):
+                        self.unmodelled.append((y, "the generator yields a value that is not a tracked triple"))
+                        return
+                    e3 = self.copy(caller)
+                    e3["facts"] |= genv["facts"]
+                    e3["loops"] = list(genv["loops"])
+                    e3["via"] = caller["via"] + (id(y),)
+                    e3["vars"][target] = v
+                    self.block(body, e3)
+
+                self._consume(vw, e2, on_yield, s)
                 return [env]
             if vw is not None and vw[0] == "ctxset" and not vw[2] and isinstance(s.target, ast.Name):
                 self._tok += 1
@@ -1114,7 +1395,23 @@ class PatternInterp:
 
     def _delegate(self, s, call: ast.AST, env) -> list:
         """`yield from self.m(...)`, m a generator method of the class: its body is interpreted with the parameters bound to the caller's values"""
-        r = class_callee(self.meths, self.cls, env["fn"], call) if isinstance(call, ast.Call) else None
+        gv = self.val(call, env)
+        if gv is not None and gv[0] == "gen":
+            # `yield from g(...)`, g a generator function of the package: its yields are yields of the caller
+            outer = env
+
+            def on_yield(y: ast.Yield, genv, outer=outer):
+                e3 = self.copy(genv)
+                e3["consumer"], e3["via"] = outer["consumer"], outer["via"] + (id(y),)
+                e3["ctx_ok"] = outer["ctx_ok"]
+                if e3["consumer"] is not None:
+                    e3["consumer"](y, e3)
+                else:
+                    self.do_yield(y, e3)
+
+            self._consume(gv, self.copy(env), on_yield, s)
+            return [env]
+        r = self._class_callee(env, call)
         if r is None or any(isinstance(a, ast.Starred) for a in call.args):
             self.unmodelled.append((s, "yields from %s" % norm(call)[:60]))
             return [env]
@@ -1176,7 +1473,7 @@ class PatternInterp:
                     problems.append("no index holds a complete membership chain for %s: facts %s" % (norm(first)[:40], sorted((i, tuple(v[1] for v in k)) for i, k in env["facts"])))
             if self.ctx_aware and env["ctx_ok"] != fv:
                 problems.append("yield is not guarded by the per-triple context filter for this triple: triples of other graphs leak into the requested graph")
-        self.yields.append(_Yield(y, env["shape"], comps, problems, list(env["loops"]), idx_used))
+        self.yields.append(_Yield(y, env["shape"], comps, problems, list(env["loops"]), idx_used, env["via"]))
 
 
 def shapes():
